@@ -37,6 +37,9 @@ structure P where
   rootStart : Nat          -- the root entry's start sector: the mini stream
   rootLen : Nat
   starts : List (Nat × Nat)  -- directory slot ↦ start sector of that stream
+  /-- the header's transaction signature number (offset 52): written as zero by `create`, never touched
+  afterwards, ignored by `open` — a file from a writer with transaction support carries a sequence number -/
+  txSig : Nat := 0
 deriving Inhabited
 
 def P.S (p : P) : Nat := sectorLenOf p.v4
